@@ -25,7 +25,8 @@ from elementpath.namespaces import XSD_ANY_TYPE, XSD_ANY_SIMPLE_TYPE, XSD_ANY_AT
 from elementpath.namespaces import XSD_NAMESPACE, XPATH_MATH_FUNCTIONS_NAMESPACE
 from elementpath.datatypes import AnyAtomicType, AbstractDateTime, AnyURI, \
     DayTimeDuration, Date, DateTime, DecimalProxy, Duration, Integer, QName, \
-    Timezone, UntypedAtomic, AbstractQName, NumericProxy
+    Timezone, UntypedAtomic, AbstractQName, NumericProxy, AbstractBinary, \
+    YearMonthDuration
 from elementpath.tdop import Token, MultiLabel
 from elementpath.helpers import ordinal, get_double
 from elementpath.xpath_context import XPathContext, XPathSchemaContext
@@ -48,6 +49,46 @@ _LEAF_ELEMENTS_TOKENS = frozenset((
 ))
 
 T = TypeVar('T', bound=ta.ItemType)
+
+
+GREGORIAN_FAMILIES = frozenset(('gDay', 'gMonth', 'gMonthDay', 'gYear', 'gYearMonth'))
+
+
+def comparison_family(obj: Any) -> str | None:
+    """
+    The family of mutually comparable atomic types of a value, `None` for the values
+    that are cast to the type of the other operand (xs:untypedAtomic) or unknown.
+    """
+    if isinstance(obj, bool):
+        return 'boolean'
+    elif isinstance(obj, (int, float, Decimal)):
+        return 'numeric'
+    elif isinstance(obj, (str, AnyURI)):
+        return 'string'
+    elif isinstance(obj, Duration):
+        return 'duration'
+    elif isinstance(obj, AbstractDateTime):
+        return 'dateTime' if isinstance(obj, DateTime) else obj.name
+    elif isinstance(obj, (AbstractBinary, AbstractQName)):
+        return obj.name
+    return None
+
+
+def is_ordered_pair(op1: Any, op2: Any, version: str) -> bool:
+    """Returns `False` if the order relation is not defined for the types of the operands."""
+    for obj in (op1, op2):
+        if isinstance(obj, AbstractQName):
+            return False
+        elif isinstance(obj, AbstractDateTime) and obj.name in GREGORIAN_FAMILIES:
+            return False
+        elif isinstance(obj, AbstractBinary) and version < '3.1':
+            return False
+    if isinstance(op1, Duration) or isinstance(op2, Duration):
+        for cls in (YearMonthDuration, DayTimeDuration):
+            if isinstance(op1, (cls, UntypedAtomic)) and isinstance(op2, (cls, UntypedAtomic)):
+                return True
+        return False
+    return True
 
 
 XPATH1_NUMBER_PATTERN = re.compile(r'-?(?:[0-9]+(?:\.[0-9]*)?|\.[0-9]+)')
@@ -581,7 +622,14 @@ class XPathToken(Token[ta.XPathTokenType]):
             left_values = self._items[0].atomization(context)
             right_values = self._items[1].atomization(context)
 
+        relational = self.symbol in ('<', '<=', '>', '>=')
         for op1, op2 in product(left_values, right_values):
+            family1, family2 = comparison_family(op1), comparison_family(op2)
+            if family1 is not None and family2 is not None and family1 != family2:
+                raise TypeError(msg.format(type(op1), type(op2)))
+            elif relational and not is_ordered_pair(op1, op2, self.parser.version):
+                raise TypeError(f"values of type {type(op1)} are not ordered")
+
             # An untyped value compared with a decimal or an integer is cast to xs:double,
             # then the other operand is promoted to xs:double too.
             if isinstance(op1, UntypedAtomic):
